@@ -1,4 +1,5 @@
 import RedisGoModel.Exec.StringKeys
+import RedisGoModel.Exec.Misc
 import RedisGoModel.Exec.Hash
 import RedisGoModel.Exec.List
 import RedisGoModel.Exec.Set
@@ -9,11 +10,15 @@ namespace Exec
 open Resp (Reply Bytes)
 
 def cmdTable : List (String × Cmd) := stringKeyTable
+  ++ miscTable
   ++ setTable
   ++ hashTable
   ++ listTable
   ++ zsetTable
   ++ streamTable
+
+/-- every command name the model knows: the table, plus SELECT (connection layer) and SUBSCRIBE (serve engine, needs a connection) -/
+def modelledCommands : List String := cmdTable.map (·.1) ++ ["select", "subscribe"]
 
 def lookupCmd (name : Bytes) : Option Cmd :=
   (cmdTable.find? fun p => ofStr p.1 == name).map (·.2)
